@@ -64,6 +64,10 @@ C15Corrupt == {[kind |-> "resp_corrupt", cls |-> c] : c \in {"unknown_status", "
 \* single-part and a multipart document: rel says how the field relates to the registered one (Codec_Http!StatusLineViolations)
 StatusLineRels == {"exact", "other_phrase", "truncated_char", "truncated_word", "extended_char", "extended_word", "empty_phrase",
                    "unregistered_code", "case_changed"}
+\* broken multipart structure, systematically: n parts, one structural element removed (at part `at` where that applies)
+C15Structs == {[kind |-> "resp_struct", n |-> n, brk |-> b, at |-> a] :
+                 n \in 2..4, b \in {"exact", "no_opening", "no_closing", "no_boundary_param"}, a \in {1}}
+              \cup {[kind |-> "resp_struct", n |-> n, brk |-> "no_blank_line", at |-> a] : n \in 2..4, a \in 1..4}
 C15StatusLines == {[kind |-> "resp_status_line", idx |-> i, rel |-> rl, frame |-> fr] :
                      i \in 1..60, rl \in StatusLineRels, fr \in {"single", "multi"}}
 
@@ -79,6 +83,10 @@ C16Values ==
             b1 \in MBodies, b2 \in MBodies}
     \cup {[kind |-> "multipart", boundary |-> "--b", parts |-> [i \in 1..n |-> MPart(<<CD("f"), H("X-I", ToString(i))>>, <<96 + i>>)]] : n \in 3..8}
 C16Corrupt == {[kind |-> "multipart_corrupt", cls |-> c] : c \in {"no_opening_boundary", "no_closing_boundary", "part_without_headers"}}
+\* the same for multipart/form-data: documents written by the library itself, then one structural element removed
+C16Structs == {[kind |-> "multipart_struct", boundary |-> bd, n |-> n, brk |-> b, at |-> a] :
+                 bd \in {"--b", "----WebKitFormBoundaryAbC123", "x"}, n \in 1..3,
+                 b \in {"exact", "no_opening", "no_closing", "part_without_headers"}, a \in 1..3}
 C16Extract == {[kind |-> "boundary_param", ct |-> "multipart/form-data; boundary=" \o b, boundary |-> b] :
                  b \in {"----WebKitFormBoundary7MA4YWxkTrZu0gW", "b", "a-b", "------------------------d74496d66958873e",
                         \* every punctuation character RFC 2046 allows in a boundary (bcharsnospace), as mail and HTTP clients use them
@@ -113,7 +121,9 @@ IntLex == {"0", "1", "-1", "127", "-128", "255", "32767", "-32768", "65535", "21
 FloatLex == {"0.0", "-0.0", "0.1", "-0.1", "1.0", "1e-7", "1e21", "5e-324", "1.7976931348623157e308", "0.30000000000000004",
              "123456.789", "-2.5e-3", "1e100", "3.0e0", "12345678901234567.0", "-1e-7", "-5e-324", "-1e21", "-1e16"}
 StrVals == {"", "plain", "with space", "a,b", "{x}", "[1]", ":", "true", "null", "123", "é😀"}
-LeafV(name, n) == [name |-> name, n |-> n]
+LeafV(name, n) == [name |-> name, n |-> n, chain |-> <<>>]
+Sub(name, n) == [name |-> name, n |-> n]
+LeafC(name, n, chain) == [name |-> name, n |-> n, chain |-> chain]      \* chain: leaves nested inside this one
 NoLeaf == [p |-> FALSE, v |-> LeafV("", "0")]
 InnerV(label, flag, leaf) == [label |-> label, flag |-> flag, leaf |-> leaf]
 NoObj == [p |-> FALSE, v |-> InnerV("", "false", NoLeaf)]
@@ -135,6 +145,13 @@ C19Objects ==
     \cup {[AllAbsent EXCEPT !.f = P(v)] : v \in FloatLex}
     \cup {[Base EXCEPT !.obj = P(InnerV(l, fl, lf))] : l \in {"", "x y"}, fl \in {"true", "false"},
                                                         lf \in {NoLeaf, P(LeafV("", "0")), P(LeafV("n", "-9223372036854775808"))}}
+    \* nesting depth as data: the leaf of the nested object carries 1..3 further levels (depth 3..5 from the root),
+    \* also inside an array of objects, with strings that contain structural characters at the deepest level
+    \cup {[Base EXCEPT !.obj = P(InnerV("deep", "true", P(LeafC("l2", "2", ch))))] :
+            ch \in {<<Sub("l3", "3")>>, <<Sub("l3", "-3"), Sub("l4", "4")>>, <<Sub("a,b", "1"), Sub("{x}[y]", "-2"), Sub("", "0")>>,
+                     <<Sub("q: r", "170141183460469231731687303715884105727"), Sub("}", "1")>>}}
+    \cup {[Base EXCEPT !.objs = P(<<LeafC("e1", "1", <<Sub("s1", "-1")>>), LeafV("e2", "2"), LeafC("e3", "3", <<Sub("s3", "3"), Sub("t3 ]", "33")>>)>>)]}
+    \cup {[AllAbsent EXCEPT !.objs = P(<<LeafC("only", "1", <<Sub("x", "1"), Sub("y", "2"), Sub("z", "3")>>)>>)]}
     \cup {[Base EXCEPT !.objs = P(os)] : os \in {<<>>, <<LeafV("only", "-1")>>, [k \in 1..64 |-> LeafV("k", ToString(k))]}}
     \cup {[Base EXCEPT !.ints = P(xs)] : xs \in {<<>>, <<"0">>, <<"-1">>, <<"-1", "-2">>, [k \in 1..64 |-> ToString(k)]}}
     \cup {[Base EXCEPT !.strs = P(xs)] : xs \in {<<>>, <<"">>, <<"a,b", "c">>, <<"[", "]">>, [k \in 1..64 |-> "s" \o ToString(k)]}}
@@ -161,8 +178,8 @@ C19Arrays ==
 
 Cases == CASE Mode = "c19" -> C19Objects \cup C19Arrays
            [] Mode = "c14" -> C14Values \cup C14Lines
-           [] Mode = "c15" -> C15Values \cup {AllStatuses} \cup C15Corrupt \cup C15StatusLines
-           [] Mode = "c16" -> C16Values \cup C16Corrupt \cup C16Extract
+           [] Mode = "c15" -> C15Values \cup {AllStatuses} \cup C15Corrupt \cup C15StatusLines \cup C15Structs
+           [] Mode = "c16" -> C16Values \cup C16Corrupt \cup C16Extract \cup C16Structs
            [] Mode = "c17" -> C17Values
 Init == case \in Cases
 Next == UNCHANGED case
